@@ -227,6 +227,10 @@ def family(tier):
     for nm in ("", "c1", "row_2", "cap__2", "$r", "set_A_1"):
         rows = [(nm, [1.0, -1.0] + [0.0] * (n - 2), "LessOrEqual", 1.0), ("", [0.0] * n, "Equal", 0.0)]
         models.append(("rowname:%s" % (nm or "<none>"), make_model(NAMES, base_dom, "Min", [0.0] * n, 0.0, rows), (NAMES, base_dom, "Min", [0.0] * n, 0.0, rows)))
+    # user-written names that are the labels an exporter would generate for the unnamed rows next to them, once and again
+    for tag, nms in (("once", ("c2", "", "c1")), ("twice", ("c2", "", "c2_1")), ("thrice", ("c2_1", "", "c2", "c2_1_1")), ("own-position", ("", "c1", "c1_1", "")), ("chain", ("c3", "c3_1", "", "", "c4"))):
+        rows = [(nm, [float(k + 1), -1.0] + [0.0] * (n - 2), "LessOrEqual", float(k)) for k, nm in enumerate(nms)]
+        models.append(("rowname-generated:%s" % tag, make_model(NAMES, base_dom, "Min", [1.0] + [0.0] * (n - 1), 0.0, rows), (NAMES, base_dom, "Min", [1.0] + [0.0] * (n - 1), 0.0, rows)))
     # offsets and optimisation types
     for opt in ("Min", "Max", "Satisfy"):
         for off in (0.0, 3.5, -3.5, 1e-7, -1e-7, 1e19):
